@@ -1685,3 +1685,398 @@ Proof.
   apply andb_prop in F3. destruct F3 as [F3 F4]. apply Nat.leb_le in F3. apply Bool.eqb_prop in F4.
   repeat split; auto. exists cs. repeat split; auto.
 Qed.
+
+(* ------------------------------------------------------------------------------------------ *)
+(** * Whole GRwriteimage / GRreadimage / chunk access: interlace conversion + number conversion + region engine
+      refine the raster specification (s_write / s_read) for all regions, strides and interlaces *)
+
+Lemma map_repeat' : forall {A B} (g : A -> B) x n, map g (repeat x n) = repeat (g x) n.
+Proof. intros. induction n; simpl; auto. f_equal. auto. Qed.
+
+Lemma nth_repeat_lt : forall {A} (a d : A) m n, n < m -> nth n (repeat a m) d = a.
+Proof. intros A a d m. induction m; intros n H; [lia|]. destruct n; simpl; auto. apply IHm. lia. Qed.
+
+Lemma concat_uniform_length : forall {T} (l : list (list T)) nc,
+    (forall x, In x l -> length x = nc) -> length (concat l) = length l * nc.
+Proof.
+  intros T l nc. induction l; intros H; simpl; auto. rewrite app_length, IHl.
+  - rewrite (H a) by (left; auto). reflexivity.
+  - intros. apply H. right; auto.
+Qed.
+
+Lemma nth_concat_uniform : forall {T} (l : list (list T)) nc k c d,
+    (forall x, In x l -> length x = nc) -> k < length l -> c < nc ->
+    nth (k * nc + c) (concat l) d = nth c (nth k l []) d.
+Proof.
+  intros T l nc. induction l as [|a l IH]; intros k c d H Hk Hc; [simpl in Hk; lia|].
+  assert (Ha : length a = nc) by (apply H; left; auto).
+  destruct k; simpl.
+  - apply app_nth1. lia.
+  - rewrite app_nth2 by lia. replace (nc + k * nc + c - length a) with (k * nc + c) by lia.
+    apply IH; auto; [intros; apply H; right; auto | simpl in Hk; lia].
+Qed.
+
+Lemma il_spec_same : forall {A} (d : A) a X Y nc cs (src : list A),
+    1 <= cs -> length src = X * Y * nc * cs -> il_convert_spec d a a X Y nc cs src = src.
+Proof.
+  intros A d a X Y nc cs src Hcs Hl. apply (nth_ext _ _ d d).
+  - unfold il_convert_spec. rewrite map_length, seq_length. auto.
+  - unfold il_convert_spec at 1. rewrite map_length, seq_length. intros q Hq.
+    unfold il_convert_spec. rewrite nth_map_seq by auto.
+    assert (Hk : q / cs < X * Y * nc) by (apply Nat.div_lt_upper_bound; nia).
+    pose proof (il_index_decode_lemma a X Y nc (q / cs) Hk) as Hdec.
+    destruct (il_decode a X Y nc (q / cs)) as [[y x] c]. destruct Hdec as (_ & _ & _ & E).
+    rewrite E. f_equal. symmetry. apply Nat.div_mod. lia.
+Qed.
+
+Lemma px_index_lt : forall cx cy y x, y < cy -> x < cx -> y * cx + x < cx * cy.
+Proof. intros. assert (y * cx + x + 1 <= cy * cx) by nia. lia. Qed.
+Lemma comp_index_lt : forall cx cy nc y x c, y < cy -> x < cx -> c < nc -> (y * cx + x) * nc + c < cx * cy * nc.
+Proof. intros. exact (il_index_lt_lemma ILpixel cx cy nc y x c H H0 H1). Qed.
+
+Section Compose.
+  Context {C D : Type}.
+  Variables (enc : C -> D) (dec : D -> C) (d0 : C).
+  Hypothesis dec_enc : forall c, dec (enc c) = c.
+
+  (** the pixel-interlaced buffer GRwriteimage / GRwritechunk build from the caller's buffer *)
+  Definition pixbuf_of (wil : ilace) (cx cy nc : nat) (user : list C) : list C :=
+    if il_eqb wil ILpixel then user
+    else il_convert_walk wil ILpixel cx cy nc 1 user (repeat d0 (length user)).
+
+  Lemma pixbuf_nth : forall wil cx cy nc user k c,
+      1 <= nc -> length user = cx * cy * nc -> k < cx * cy -> c < nc ->
+      nth (k * nc + c) (pixbuf_of wil cx cy nc user) d0 = nth (il_index wil cx cy nc (k / cx) (k mod cx) c) user d0.
+  Proof.
+    intros wil cx cy nc user k c Hnc Hl Hk Hc. unfold pixbuf_of.
+    assert (Hcx : cx <> 0) by (intro; subst; simpl in Hk; lia).
+    assert (Hy : k / cx < cy) by (apply Nat.div_lt_upper_bound; auto; lia).
+    assert (Hx : k mod cx < cx) by (apply Nat.mod_upper_bound; auto).
+    assert (Ek : il_index ILpixel cx cy nc (k / cx) (k mod cx) c = k * nc + c).
+    { simpl. pose proof (Nat.div_mod k cx Hcx). nia. }
+    destruct (il_eqb wil ILpixel) eqn:E.
+    - apply il_eqb_eq in E. subst wil. rewrite Ek. reflexivity.
+    - rewrite (il_convert_correct_lemma d0) by (rewrite ?repeat_length; lia).
+      unfold il_convert_spec. rewrite nth_map_seq by nia.
+      rewrite Nat.div_1_r.
+      replace (il_decode ILpixel cx cy nc (k * nc + c)) with (k / cx, k mod cx, c)
+        by (rewrite <- Ek; symmetry; apply il_decode_index_lemma; auto).
+      cbv beta iota. rewrite Nat.mod_1_r, Nat.add_0_r, Nat.mul_1_l. reflexivity.
+  Qed.
+
+  Lemma chunk_px_codec : forall nc n (buf : list C),
+      map (map dec) (chunk_px (enc d0) nc n (map enc buf)) = chunk_px d0 nc n buf.
+  Proof.
+    intros. unfold chunk_px. rewrite map_map. apply map_ext. intros k. rewrite map_map. apply map_ext. intros c.
+    rewrite map_nth. apply dec_enc.
+  Qed.
+
+  Lemma write_pixels_lemma : forall wil cx cy nc user,
+      1 <= nc -> length user = cx * cy * nc ->
+      map (map dec) (chunk_px (enc d0) nc (cx * cy) (map enc (pixbuf_of wil cx cy nc user))) =
+      user_pixels d0 wil cx cy nc user.
+  Proof.
+    intros wil cx cy nc user Hnc Hl. rewrite chunk_px_codec. unfold chunk_px, user_pixels.
+    apply map_ext_in. intros k Hk. apply in_seq in Hk. apply map_ext_in. intros c Hc. apply in_seq in Hc.
+    apply pixbuf_nth; auto; lia.
+  Qed.
+
+  Lemma spec_write_map : forall {T U} (g : T -> U) (d : T) (e data : list T) xdim ydim r,
+      map g (spec_write_px d e xdim ydim r data) = spec_write_px (g d) (map g e) xdim ydim r (map g data).
+  Proof.
+    intros. unfold spec_write_px. rewrite map_map. apply map_ext. intros p.
+    destruct (in_lattice _ _ _ _); [destruct (in_lattice _ _ _ _)|]; rewrite map_nth; reflexivity.
+  Qed.
+
+  (** GRwriteimage as a whole refines s_write -- image with data ([e = Some l]) or new image ([None]: the
+      never-written pixels become the fill pixel) *)
+  Lemma image_write_refines_lemma : forall (e : option (list (list D))) xdim ydim nc wil r (fillpx user : list C),
+      1 <= nc -> rgn_inside xdim ydim r = true -> length user = r_cx r * r_cy r * nc ->
+      (forall l, e = Some l -> length l = xdim * ydim) ->
+      map (map dec) (m_write enc d0 e xdim ydim nc wil r fillpx user) =
+      s_write d0 (match e with Some l => map (map dec) l | None => repeat fillpx (xdim * ydim) end)
+              xdim ydim nc wil r user.
+  Proof.
+    intros e xdim ydim nc wil r fillpx user Hnc Hin Hl He. unfold m_write, s_write.
+    fold (pixbuf_of wil (r_cx r) (r_cy r) nc user).
+    set (data := chunk_px (enc d0) nc (r_cx r * r_cy r) (map enc (pixbuf_of wil (r_cx r) (r_cy r) nc user))).
+    assert (Hd : length data = r_cx r * r_cy r) by (subst data; unfold chunk_px; rewrite map_length, seq_length; auto).
+    rewrite <- (write_pixels_lemma wil (r_cx r) (r_cy r) nc user Hnc Hl). fold data.
+    destruct e as [l|].
+    - rewrite (region_write_refines_lemma [] l data xdim ydim r (map enc fillpx) (He l eq_refl) Hin Hd).
+      apply (spec_write_map (map dec) []).
+    - rewrite (first_write_fills_image_lemma [] (map enc fillpx) data xdim ydim r Hin Hd).
+      rewrite (spec_write_map (map dec) []). rewrite map_repeat'. rewrite map_map.
+      rewrite (map_ext _ (fun c => c)) by apply dec_enc. rewrite map_id. reflexivity.
+  Qed.
+
+  (** common shape of the read side: a pixel-interlaced memory buffer [mem] whose component (y, x, c) is [V y x c],
+      delivered in the requested interlace, is the closed-form reordering *)
+  Lemma read_layout_lemma : forall (V : nat -> nat -> nat -> C) ril cx cy nc (mem : list C),
+      1 <= nc -> length mem = cx * cy * nc ->
+      (forall y x c, y < cy -> x < cx -> c < nc -> nth ((y * cx + x) * nc + c) mem d0 = V y x c) ->
+      (if il_eqb ril ILpixel then mem else il_convert_walk ILpixel ril cx cy nc 1 mem (repeat d0 (length mem))) =
+      map (fun q => let '(i, j, c) := il_decode ril cx cy nc q in V i j c) (seq 0 (cx * cy * nc)).
+  Proof.
+    intros V ril cx cy nc mem Hnc Hl HV.
+    assert (E : (if il_eqb ril ILpixel then mem else il_convert_walk ILpixel ril cx cy nc 1 mem (repeat d0 (length mem)))
+                = il_convert_spec d0 ILpixel ril cx cy nc 1 mem).
+    { destruct (il_eqb ril ILpixel) eqn:E.
+      - apply il_eqb_eq in E. subst. symmetry. apply il_spec_same; lia.
+      - apply il_convert_correct_lemma; rewrite ?repeat_length; lia. }
+    rewrite E. unfold il_convert_spec. rewrite Nat.mul_1_r. apply map_ext_in. intros q Hq. apply in_seq in Hq.
+    rewrite Nat.div_1_r.
+    pose proof (il_index_decode_lemma ril cx cy nc q ltac:(lia)) as Hdec.
+    destruct (il_decode ril cx cy nc q) as [[y x] c]. destruct Hdec as (Hy & Hx & Hc & _).
+    rewrite Nat.mod_1_r, Nat.add_0_r, Nat.mul_1_l. simpl il_index. apply HV; auto.
+  Qed.
+
+  (** GRreadimage as a whole refines s_read *)
+  Lemma image_read_refines_lemma : forall (e : list (list D)) xdim ydim nc ril r,
+      1 <= nc -> rgn_inside xdim ydim r = true -> length e = xdim * ydim ->
+      (forall px, In px e -> length px = nc) ->
+      m_read dec d0 e xdim ydim nc ril r = s_read d0 (map (map dec) e) xdim nc ril r.
+  Proof.
+    intros e xdim ydim nc ril r Hnc Hin Hl Hpx. unfold m_read, s_read.
+    rewrite (region_read_refines_lemma [] e xdim ydim r Hl Hin).
+    pose proof (inside_facts _ _ _ Hin) as (Htx & Hty & Hcx & Hcy & Hx & Hy).
+    set (px := spec_read_px [] e xdim r).
+    assert (Hpl : length px = r_cx r * r_cy r) by (subst px; unfold spec_read_px; rewrite map_length, seq_length; auto).
+    assert (Hpn : forall y x, y < r_cy r -> x < r_cx r ->
+                              nth (y * r_cx r + x) px [] = nth ((r_sy r + y * r_ty r) * xdim + r_sx r + x * r_tx r) e []).
+    { intros y x Hy' Hx'. subst px. unfold spec_read_px. rewrite nth_map_seq by (apply px_index_lt; auto).
+      rewrite (div_of (r_cx r) y x) by lia. rewrite (mod_of (r_cx r) y x) by lia. reflexivity. }
+    assert (Hin_e : forall y x, y < r_cy r -> x < r_cx r ->
+                                In (nth ((r_sy r + y * r_ty r) * xdim + r_sx r + x * r_tx r) e []) e).
+    { intros y x Hy' Hx'. apply nth_In. rewrite Hl.
+      destruct (pixel_pos_bound xdim ydim r y x Hin Hy' Hx') as (A & _). lia. }
+    assert (Hu : forall x, In x px -> length x = nc).
+    { intros x Hx'. subst px. unfold spec_read_px in Hx'. apply in_map_iff in Hx'. destruct Hx' as [q [<- Hq]].
+      apply in_seq in Hq. assert (Hcxn : r_cx r <> 0) by lia.
+      apply Hpx. replace ((r_sy r + q / r_cx r * r_ty r) * xdim + r_sx r + q mod r_cx r * r_tx r)
+        with ((r_sy r + (q / r_cx r) * r_ty r) * xdim + r_sx r + (q mod r_cx r) * r_tx r) by reflexivity.
+      apply Hin_e; [apply Nat.div_lt_upper_bound; auto; lia | apply Nat.mod_upper_bound; auto]. }
+    rewrite (read_layout_lemma
+               (fun y x c => dec (nth c (nth ((r_sy r + y * r_ty r) * xdim + r_sx r + x * r_tx r) e []) (enc d0)))).
+    - apply map_ext_in. intros q Hq. apply in_seq in Hq.
+      pose proof (il_index_decode_lemma ril (r_cx r) (r_cy r) nc q ltac:(lia)) as Hdec.
+      destruct (il_decode ril (r_cx r) (r_cy r) nc q) as [[y x] c]. destruct Hdec as (Hy' & Hx' & Hc & _).
+      change (@nil C) with (map dec (@nil D)). rewrite map_nth.
+      rewrite (nth_indep _ d0 (dec (enc d0))) by (rewrite map_length, (Hpx _ (Hin_e y x Hy' Hx')); auto).
+      rewrite map_nth. reflexivity.
+    - auto.
+    - rewrite map_length, (concat_uniform_length px nc Hu), Hpl. reflexivity.
+    - intros y x c Hy' Hx' Hc.
+      rewrite (nth_indep _ d0 (dec (enc d0)))
+        by (rewrite map_length, (concat_uniform_length px nc Hu), Hpl; apply comp_index_lt; auto).
+      rewrite map_nth. rewrite nth_concat_uniform by (auto; rewrite Hpl; apply px_index_lt; auto).
+      rewrite Hpn by auto. reflexivity.
+  Qed.
+
+  (** GRreadimage of an image that has no data yet: every pixel is the fill pixel *)
+  Lemma read_nodata_refines_lemma : forall xdim ydim nc ril r (fillpx : list C),
+      1 <= nc -> rgn_inside xdim ydim r = true -> length fillpx = nc ->
+      m_read_nodata d0 nc ril r fillpx = s_read d0 (repeat fillpx (xdim * ydim)) xdim nc ril r.
+  Proof.
+    intros xdim ydim nc ril r fillpx Hnc Hin Hf. unfold m_read_nodata, s_read.
+    assert (Hu : forall x, In x (repeat fillpx (r_cx r * r_cy r)) -> length x = nc)
+      by (intros x Hx; apply repeat_spec in Hx; subst; auto).
+    rewrite (read_layout_lemma (fun _ _ c => nth c fillpx d0)).
+    - apply map_ext_in. intros q Hq. apply in_seq in Hq.
+      pose proof (il_index_decode_lemma ril (r_cx r) (r_cy r) nc q ltac:(lia)) as Hdec.
+      destruct (il_decode ril (r_cx r) (r_cy r) nc q) as [[y x] c]. destruct Hdec as (Hy' & Hx' & Hc & _).
+      destruct (pixel_pos_bound xdim ydim r y x Hin Hy' Hx') as (A & _).
+      rewrite nth_repeat_lt by lia. reflexivity.
+    - auto.
+    - rewrite (concat_uniform_length _ nc Hu), repeat_length. reflexivity.
+    - intros y x c Hy' Hx' Hc. rewrite nth_concat_uniform by (auto; rewrite repeat_length; apply px_index_lt; auto).
+      rewrite nth_repeat_lt by (apply px_index_lt; auto). reflexivity.
+  Qed.
+End Compose.
+
+Section ComposeChunk.
+  Context {C D : Type}.
+  Variables (enc : C -> D) (dec : D -> C) (d0 : C).
+  Hypothesis dec_enc : forall c, dec (enc c) = c.
+
+  Lemma put_chunk_map : forall {T U} (g : T -> U) (t0 : T) (img px : list T) xdim ydim c0 c1 o0 o1,
+      map g (put_chunk t0 img xdim ydim c0 c1 o0 o1 px) = put_chunk (g t0) (map g img) xdim ydim c0 c1 o0 o1 (map g px).
+  Proof.
+    intros. unfold put_chunk. rewrite map_map. apply map_ext. intros p.
+    destruct (cell_of ydim c0 c1 o0 o1 p); rewrite map_nth; reflexivity.
+  Qed.
+
+  Lemma get_chunk_map : forall {T U} (g : T -> U) (t0 : T) (img : list T) ydim c0 c1 o0 o1,
+      map g (get_chunk t0 img ydim c0 c1 o0 o1) = get_chunk (g t0) (map g img) ydim c0 c1 o0 o1.
+  Proof. intros. unfold get_chunk. rewrite map_map. apply map_ext. intros l. rewrite map_nth. reflexivity. Qed.
+
+  (** GRwritechunk: the caller's chunk buffer (any interlace), converted with GRIil_convert over the chunk
+      lengths and per component, lands in the cells of chunk (o0, o1) exactly as the specification says *)
+  Lemma chunk_write_refines_lemma : forall (e : list (list D)) xdim ydim nc wil c0 c1 o0 o1 (user : list C),
+      1 <= nc -> length user = c0 * c1 * nc ->
+      map (map dec) (put_chunk [] e xdim ydim c0 c1 o0 o1
+                               (chunk_px (enc d0) nc (c0 * c1) (map enc (pixbuf_of d0 wil c0 c1 nc user)))) =
+      put_chunk [] (map (map dec) e) xdim ydim c0 c1 o0 o1 (user_pixels d0 wil c0 c1 nc user).
+  Proof.
+    intros e xdim ydim nc wil c0 c1 o0 o1 user Hnc Hl.
+    rewrite (put_chunk_map (map dec) []). rewrite (write_pixels_lemma enc dec d0 dec_enc wil c0 c1 nc user Hnc Hl).
+    reflexivity.
+  Qed.
+
+  Lemma chunk_cell_lt : forall xdim ydim c0 c1 o0 o1 l,
+      chunk_inside xdim ydim c0 c1 o0 o1 = true -> l < c0 * c1 -> chunk_cell ydim c0 c1 o0 o1 l < xdim * ydim.
+  Proof.
+    intros xdim ydim c0 c1 o0 o1 l H Hl. unfold chunk_inside in H.
+    repeat (apply andb_prop in H; destruct H as [H ?]).
+    repeat match goal with H : (_ <=? _) = true |- _ => apply Nat.leb_le in H end.
+    unfold chunk_cell.
+    assert (l / c1 < c0) by (apply Nat.div_lt_upper_bound; nia).
+    assert (l mod c1 < c1) by (apply Nat.mod_upper_bound; lia).
+    assert (o0 * c0 + l / c1 + 1 <= xdim) by nia. assert (o1 * c1 + l mod c1 < ydim) by nia. nia.
+  Qed.
+
+  (** GRreadchunk: the cells of chunk (o0, o1), converted per component and to the requested interlace over the
+      chunk lengths, are the closed-form reordering of the specification's chunk *)
+  Lemma chunk_read_refines_lemma : forall (e : list (list D)) xdim ydim nc ril c0 c1 o0 o1,
+      1 <= nc -> chunk_inside xdim ydim c0 c1 o0 o1 = true -> length e = xdim * ydim ->
+      (forall px, In px e -> length px = nc) ->
+      let mem := map dec (concat (get_chunk [] e ydim c0 c1 o0 o1)) in
+      (if il_eqb ril ILpixel then mem else il_convert_walk ILpixel ril c0 c1 nc 1 mem (repeat d0 (length mem))) =
+      il_convert_spec d0 ILpixel ril c0 c1 nc 1 (concat (get_chunk [] (map (map dec) e) ydim c0 c1 o0 o1)).
+  Proof.
+    intros e xdim ydim nc ril c0 c1 o0 o1 Hnc Hin Hl Hpx mem.
+    assert (Hmem : mem = concat (get_chunk [] (map (map dec) e) ydim c0 c1 o0 o1)).
+    { subst mem. rewrite concat_map. rewrite (get_chunk_map (map dec) []). reflexivity. }
+    assert (Hu : forall x, In x (get_chunk [] e ydim c0 c1 o0 o1) -> length x = nc).
+    { intros x Hx. unfold get_chunk in Hx. apply in_map_iff in Hx. destruct Hx as [l [<- Hl']]. apply in_seq in Hl'.
+      apply Hpx. apply nth_In. rewrite Hl. apply (chunk_cell_lt xdim ydim c0 c1 o0 o1 l Hin). lia. }
+    assert (Hlen : length mem = c0 * c1 * nc * 1).
+    { subst mem. rewrite map_length, (concat_uniform_length _ nc Hu). unfold get_chunk. rewrite map_length, seq_length. lia. }
+    rewrite <- Hmem.
+    destruct (il_eqb ril ILpixel) eqn:E.
+    - apply il_eqb_eq in E. subst. symmetry. apply il_spec_same; auto.
+    - apply il_convert_correct_lemma; rewrite ?repeat_length; auto.
+  Qed.
+End ComposeChunk.
+
+(* ------------------------------------------------------------------------------------------ *)
+(** * History level: the extracted GRwriteimage / GRreadimage models simulate the specification *)
+
+Lemma codec_involutive : forall b c, codec b (codec b c) = c.
+Proof. intros [] c; simpl; auto. apply rev_involutive. Qed.
+
+(** M's image (element in disk format, None while the file has no data) represents S's image *)
+Definition img_rel (m : mimg) (s : simg) : Prop :=
+  m_g m = s_g s /\ m_wil m = s_wil s /\ m_ril m = s_ril s /\ m_fill m = s_fill s /\
+  1 <= gnc (m_g m) /\
+  (forall p, m_fill m = Some p -> length p = gnc (m_g m)) /\
+  match m_elt m, s_data s with
+  | Some e, Some img => img = map (map (codec (gswap (m_g m)))) e /\ length e = gx (m_g m) * gy (m_g m) /\
+                        (forall px, In px e -> length px = gnc (m_g m))
+  | None, None => True
+  | _, _ => False
+  end.
+
+Lemma fill_of_length : forall g f, (forall p, f = Some p -> length p = gnc g) -> length (fill_of g f) = gnc g.
+Proof. intros g [p|] H; simpl; [apply H; auto | unfold zero_px; apply repeat_length]. Qed.
+
+Lemma group_length : forall cs n bytes, length (group cs n bytes) = n.
+Proof. intros. unfold group. rewrite map_length, seq_length. reflexivity. Qed.
+
+Lemma spec_write_px_lengths : forall {T} (img data : list (list T)) xdim ydim r nc,
+    rgn_inside xdim ydim r = true -> length img = xdim * ydim -> length data = r_cx r * r_cy r ->
+    (forall px, In px img -> length px = nc) -> (forall px, In px data -> length px = nc) ->
+    forall px, In px (spec_write_px [] img xdim ydim r data) -> length px = nc.
+Proof.
+  intros T img data xdim ydim r nc Hin Hl Hd Hi Hdt px Hpx.
+  pose proof (inside_facts _ _ _ Hin) as (Htx & Hty & Hcx & Hcy & Hx & Hy).
+  unfold spec_write_px in Hpx. apply in_map_iff in Hpx. destruct Hpx as [p [<- Hp]]. apply in_seq in Hp.
+  destruct (in_lattice (r_sy r) (r_ty r) (r_cy r) (p / xdim)) as [i|] eqn:E1;
+    [destruct (in_lattice (r_sx r) (r_tx r) (r_cx r) (p mod xdim)) as [j|] eqn:E2|];
+    try (apply Hi; apply nth_In; lia).
+  apply in_lattice_some in E1; auto. apply in_lattice_some in E2; auto.
+  apply Hdt. apply nth_In. rewrite Hd. apply px_index_lt; tauto.
+Qed.
+
+Lemma user_pixels_lengths : forall {C} (d0 : C) wil cx cy nc user px,
+    In px (user_pixels d0 wil cx cy nc user) -> length px = nc.
+Proof.
+  intros C d0 wil cx cy nc user px H. unfold user_pixels in H. apply in_map_iff in H. destruct H as [k [<- _]].
+  rewrite map_length, seq_length. reflexivity.
+Qed.
+
+(** every GRwriteimage the specification accepts is performed by the model, and the images stay related *)
+Lemma sim_writeimage_lemma : forall m s r bytes s',
+    img_rel m s -> s_writeimage s r bytes = Some s' ->
+    exists m' tr, m_writeimage m r bytes = Some (m', tr) /\ img_rel m' s'.
+Proof.
+  intros m s r bytes s' (Hg & Hw & Hr & Hf & Hnc & Hfl & Hd) Hs.
+  unfold s_writeimage in Hs. rewrite <- Hg in Hs.
+  destruct (rgn_inside (gx (m_g m)) (gy (m_g m)) r && (length bytes =? r_cx r * r_cy r * gnc (m_g m) * gcs (m_g m))) eqn:E;
+    [|discriminate].
+  apply andb_prop in E. destruct E as [Hin _]. injection Hs as <-.
+  pose proof (inside_facts _ _ _ Hin) as (Htx & Hty & Hcx & Hcy & Hx & Hy).
+  unfold m_writeimage.
+  assert (Ea : args_ok r = true).
+  { unfold args_ok. repeat (apply andb_true_intro; split); apply Nat.leb_le; auto. }
+  rewrite Ea. cbn [negb]. eexists. eexists. split; [reflexivity|].
+  set (g := m_g m) in *. set (user := group (gcs g) (r_cx r * r_cy r * gnc g) bytes).
+  set (d0 := repeat 0%Z (gcs g)).
+  assert (Hu : length user = r_cx r * r_cy r * gnc g) by apply group_length.
+  assert (Hfill : length (fill_of g (m_fill m)) = gnc g) by (apply fill_of_length; auto).
+  assert (Hel : forall l, m_elt m = Some l -> length l = gx g * gy g).
+  { intros l El. rewrite El in Hd. destruct (s_data s); [tauto|contradiction]. }
+  pose proof (image_write_refines_lemma (codec (gswap g)) (codec (gswap g)) d0 (codec_involutive (gswap g))
+                                        (m_elt m) (gx g) (gy g) (gnc g) (m_wil m) r (fill_of g (m_fill m)) user
+                                        Hnc Hin Hu Hel) as R.
+  assert (Eimg : match m_elt m with
+                 | Some l => map (map (codec (gswap g))) l
+                 | None => repeat (fill_of g (m_fill m)) (gx g * gy g)
+                 end = match s_data s with Some i => i | None => repeat (fill_of g (s_fill s)) (gx g * gy g) end).
+  { destruct (m_elt m), (s_data s); try contradiction; [symmetry; tauto | rewrite Hf; reflexivity]. }
+  rewrite Eimg in R.
+  unfold img_rel. cbn [m_set_elt s_set_data m_g s_g m_wil s_wil m_ril s_ril m_fill s_fill m_elt s_data].
+  rewrite <- Hw. do 6 (split; [solve [auto] |]). split; [symmetry; exact R | split].
+  - apply (f_equal (@length _)) in R. rewrite map_length in R. rewrite R.
+    unfold s_write, spec_write_px. rewrite map_length, seq_length. reflexivity.
+  - intros px Hpx.
+    assert (Hpx' : In (map (codec (gswap g)) px) (map (map (codec (gswap g)))
+                     (m_write (codec (gswap g)) d0 (m_elt m) (gx g) (gy g) (gnc g) (m_wil m) r (fill_of g (m_fill m)) user)))
+      by (apply in_map; auto).
+    rewrite R in Hpx'. rewrite <- (map_length (codec (gswap g)) px).
+    unfold s_write in Hpx'.
+    eapply (spec_write_px_lengths _ _ (gx g) (gy g) r (gnc g) Hin); [| | | | exact Hpx'].
+    + destruct (m_elt m) as [l|], (s_data s) as [i|]; try contradiction.
+      * destruct Hd as (-> & Hl & _). rewrite !map_length. auto.
+      * apply repeat_length.
+    + unfold user_pixels. rewrite map_length, seq_length. reflexivity.
+    + intros q Hq. destruct (m_elt m) as [l|], (s_data s) as [i|]; try contradiction.
+      * destruct Hd as (-> & _ & Hp). apply in_map_iff in Hq. destruct Hq as [q' [<- Hq']]. rewrite map_length. auto.
+      * apply repeat_spec in Hq. subst q. rewrite <- Hf. auto.
+    + intros q Hq. eapply user_pixels_lengths; eauto.
+Qed.
+
+(** every GRreadimage the specification defines returns, in the model, exactly the specified bytes *)
+Lemma sim_readimage_lemma : forall m s r out,
+    img_rel m s -> s_readimage s r = Some out -> exists tr, m_readimage m r = Some (out, tr).
+Proof.
+  intros m s r out (Hg & Hw & Hr & Hf & Hnc & Hfl & Hd) Hs.
+  unfold s_readimage in Hs. rewrite <- Hg in Hs.
+  destruct (rgn_inside (gx (m_g m)) (gy (m_g m)) r) eqn:Hin; [|discriminate]. injection Hs as <-.
+  pose proof (inside_facts _ _ _ Hin) as (Htx & Hty & Hcx & Hcy & Hx & Hy).
+  unfold m_readimage.
+  assert (Ea : args_ok r = true).
+  { unfold args_ok. repeat (apply andb_true_intro; split); apply Nat.leb_le; auto. }
+  rewrite Ea. cbn [negb]. set (g := m_g m) in *.
+  destruct (m_elt m) as [e|] eqn:Ee, (s_data s) as [img|] eqn:Es; try contradiction.
+  - destruct Hd as (-> & Hl & Hp). eexists. f_equal. f_equal. f_equal. rewrite <- Hr.
+    apply (image_read_refines_lemma (codec (gswap g)) (codec (gswap g)) (repeat 0%Z (gcs g))); auto.
+  - eexists. f_equal. f_equal. f_equal. rewrite <- Hr, <- Hf.
+    apply read_nodata_refines_lemma; auto. apply fill_of_length; auto.
+Qed.
+
+Lemma img_rel_create_lemma : forall g il, 1 <= gnc g -> img_rel (m_create g il) (s_create g il).
+Proof. intros g il H. unfold img_rel. simpl. repeat split; auto. intros p Hp. discriminate. Qed.
+
+Lemma img_rel_reqil_lemma : forall m s il, img_rel m s -> img_rel (m_reqil m il) (s_reqil s il).
+Proof. intros m s il H. unfold img_rel in *. simpl. tauto. Qed.
